@@ -42,7 +42,7 @@ const LALRPOP_VERSION_HEADER: &str = concat!(
 fn hash_file(file: &Path) -> io::Result<String> {
     let mut file = fs::File::open(file)?;
     let mut file_bytes = Vec::new();
-    file.read_to_end(&mut file_bytes).unwrap();
+    file.read_to_end(&mut file_bytes)?;
 
     let mut sha3 = Sha3_256::new();
     sha3.update(&file_bytes);
